@@ -168,7 +168,7 @@ pub fn run(ctx: &Ctx) -> Report {
     // coverage-guided part: replay of the committed corpus (quick), libFuzzer campaign (thorough)
     crate::fuzzrun::replay_corpus("total", &mut total);
     if ctx.tier == Tier::Thorough && ctx.part.is_none() {
-        crate::fuzzrun::campaign("total", ctx.seed, 3_000_000, 8, 512, &mut total);
+        crate::fuzzrun::campaign("total", ctx.seed, 400_000, 8, 512, &mut total);
     }
     Report {
         stats: total,
